@@ -129,6 +129,25 @@ def _member_classes(spec):
     return out
 
 
+_UNRELATED = {"str", "int", "list", "dict", "bytes"}     # no conversion between two of these is implicit: each needs an explicit cast
+
+
+def _strict_member_keeps(spec, r1):
+    """the union's arguments are plain / constrained types over pairwise different, unrelated source types, and r1 has exactly the
+    source type of a CONSTRAINED argument whose strict constraints it satisfies: the strict stage of the union hands r1 to that
+    argument unchanged (no other argument takes it without an explicit cast), whatever conversion flags the caller sets"""
+    from .. import constraints
+    args = spec["a"] if spec["k"] == "union" else [spec["a"]]
+    if any(a["k"] not in ("leaf", "con") or a.get("o") not in _UNRELATED or a.get("lax") or a.get("contains") for a in args):
+        return False
+    if len({a["o"] for a in args}) != len(args):
+        return False
+    for a in args:
+        if a["k"] == "con" and type(r1) is tspec.ORIGINS[a["o"]]:
+            return all(constraints.holds(n, codec.decode(b) if isinstance(b, dict) else b, r1) is True for n, b in (a.get("c") or {}).items())
+    return False
+
+
 def exact_member_changed(spec, r1, r2, depth=0):
     """is there a union node at which the first output has exactly the type of a plain argument and
     nevertheless changed on re-parse?  (walks spec, r1 and r2 in parallel)"""
@@ -138,6 +157,8 @@ def exact_member_changed(spec, r1, r2, depth=0):
     try:
         if k in ("union", "opt"):
             if type(r1) in _member_classes(spec) and not oracle.equal(_debool(r1), _debool(r2)):
+                return True
+            if _strict_member_keeps(spec, r1) and not oracle.equal(_debool(r1), _debool(r2)):
                 return True
             return False
         if type(r1) is not type(r2):
@@ -459,7 +480,12 @@ def campaign(ctx):
               [{"k": "leaf", "o": "int"}, {"k": "dict", "key": {"k": "leaf", "o": "str"}, "val": {"k": "leaf", "o": "int"}}], [{"k": "leaf", "o": "date"}, L("date")]]
     inputs = ["[7]", "1,2", "[1]", {"t": "list", "v": [7]}, {"t": "list", "v": ["2020-01-01"]}, {"t": "list", "v": ["x"]}, {"t": "list", "v": [True]}, "7", 7, '{"a": 1}',
               {"t": "dict", "v": [["a", "1"]]}, {"t": "tuple", "v": [3]}, {"t": "list", "v": [{"t": "float", "v": "1.5"}]}]
-    flagsets = [{}, {"no_explicit_cast": False}, {"no_data_loss": False}, {"no_explicit_cast": False, "no_data_loss": False}, {"no_data_loss": True}, {"collect_errors": True, "no_explicit_cast": False}]
+    # (constrained arguments over unrelated source types: the output of one is never the other's to convert - under any single flag)
+    C = lambda o, c: {"k": "con", "o": o, "c": c, "m": "annotate"}
+    unions += [[C("str", {"max_length": 1}), C("int", {"ge": 0})], [C("str", {"regex": "[a-z]+"}), C("int", {"lt": 100})], [C("str", {"max_length": 2}), C("list", {"max_length": 3})]]
+    inputs += ["07", "123", 12, "ab", {"t": "list", "v": [1, 2]}]
+    flagsets = [{}, {"no_explicit_cast": False}, {"no_data_loss": False}, {"no_explicit_cast": False, "no_data_loss": False}, {"no_data_loss": True}, {"collect_errors": True, "no_explicit_cast": False},
+                {"no_explicit_cast": True}]
     for args in unions:
         for order in (args, args[::-1]):
             for v in inputs:
